@@ -30,8 +30,8 @@ from ..realise import fsdoc
 SPEC = os.path.join(SPECS, "fs", "MC_FsConfine.tla")
 TRACE_SPEC = os.path.join(SPECS, "fs", "FsTrace.tla")
 INVARIANTS = ["ReadsConfined", "WritesConfined", "NeverOverwrite", "DistinctNames", "BlameSound", "LookupBounded"]
-BOUNDS = {"quick": {"cmap": 3, "image": 2, "image_cases": "AllImageCases", "image_deep": None},
-          "thorough": {"cmap": 4, "image": 3, "image_cases": "AllImageCases", "image_deep": 4}}
+BOUNDS = {"quick": {"cmap": 3, "image": 2, "image_cases": "AllImageCases", "image_more": None, "image_deep": None},
+          "thorough": {"cmap": 4, "image": 2, "image_cases": "AllImageCases", "image_more": 3, "image_deep": 4}}
 BATCH = 16
 EXT = ".bmp"
 CODED_DEV = []
@@ -144,8 +144,11 @@ def direction_a(ck, dev):
                         "ImageCases": "<- NoImageCases"}, ["AStart", "ATryDir"]),
               ("image", {"MaxSeg": 0, "MaxSegImage": b["image"], "Names": "<- ImageNames", "CMapSites": "<- NoSites",
                          "ImageCases": "<- " + b["image_cases"]}, ["AStart", "AExport"])]
+    if b["image_more"]:
+        spaces.append(("imagemore", {"MaxSeg": 0, "MaxSegImage": b["image_more"], "Names": "<- ImageNames", "CMapSites": "<- NoSites",
+                                     "ImageCases": "<- HalfImageCases"}, ["AStart", "AExport"]))
     if b["image_deep"]:
-        spaces.append(("imagedeep", {"MaxSeg": 0, "MaxSegImage": b["image_deep"], "Names": "<- ImageNames", "CMapSites": "<- NoSites",
+        spaces.append(("imagedeep", {"MaxSeg": 0, "MaxSegImage": b["image_deep"], "Names": "<- ImageNamesRel", "CMapSites": "<- NoSites",
                                      "ImageCases": "<- FewImageCases"}, ["AStart", "AExport"]))
     results = {}
     threads = []
@@ -276,7 +279,7 @@ def judge_cmap(ck, site, group, res, meta, final):
         return False
     names = [r["n"] for r in group]
     for r in group:
-        ck.case(1, ("cmap", site, r["n"]["abs"], tuple(r["n"]["segs"])) if any(s in ("dd", "e", "nul", "long", "dec", "sib") for s in r["n"]["segs"]) or r["n"]["abs"] else None)
+        ck.case(1, ("cmap", site, r["n"]["abs"], tuple(r["n"]["segs"])) if any(s in ("dd", "e", "nul", "long", "dec", "sib", "ndd", "n0") for s in r["n"]["segs"]) or r["n"]["abs"] else None)
     if len(ck.samples) < 3 and observed:
         ck.sample({"site": site, "names": [fsdoc.spell(n, "$ROOT").replace("\0", "\\0")[:60] for n in names][:6],
                    "files_opened": sorted("/".join(d) + "/" + w for d, w in observed)})
@@ -356,7 +359,7 @@ def judge_image(ck, r, res):
         same = set(created) <= pred_created and pred_above >= 1
     else:
         same = set(created) == pred_created and pred_above == 0 and (real_err or None) == pred_err
-    hostile = r["n"]["abs"] or any(s in ("dd", "e", "nul", "long", "dec", "sub", "d", "sib") for s in r["n"]["segs"]) or len(r["n"]["segs"]) != 1
+    hostile = r["n"]["abs"] or any(s in ("dd", "e", "nul", "long", "dec", "sub", "d", "sib", "ndd", "n0") for s in r["n"]["segs"]) or len(r["n"]["segs"]) != 1
     ck.case(1, ("image", r["n"]["abs"], tuple(r["n"]["segs"]), tuple(init), draws) if hostile or init else None)
     case = {"site": "image", "name": r["n"], "init": init, "draws": draws, "created": created, "modified": res["modified"],
             "deleted": res["deleted"], "blocked_outside_scratch": [e.get("path") for e in blocked], "exception": res["exc"],
